@@ -1,4 +1,5 @@
 import TakVerif.Proofs.TEIClientCompose
+import TakVerif.Proofs.TEIClientTotal
 import TakVerif.Props.C17
 
 /-! # C17, observed at `tei.Player.TEIGetMove` — the client side of TEI
@@ -264,6 +265,133 @@ theorem client_server_bestmove_legal (basis : Array W) (search : Nat → Pos →
   obtain ⟨m, rest, hpv, hlegal, hshape⟩ := hS (c.eng.k + 1) p' (goBudget p' (goArgs rem (tc.getD {}))) hlive
   refine ⟨m, _, h4 m rest hpv hshape, hlegal, ?_, rfl⟩
   exact ⟨rfl, rfl, hready.game, hready.size, fun s hs => by simpa [connAfter] using hs.symm⟩
+
+/-- **End to end, the engine never gets more time than the caller gave.**  For durations the client accepts
+(`¬ TooShort`) within `[0, 2^62]` ns and whatever position `p'` the engine holds, the deadline its `analyze`
+installs for the client's `go` line (`goBudget p' (goArgs rem tc)`, the value `client_returns_pv_head` shows
+in the connection afterwards) satisfies: with a per-move time `r` a deadline is installed and is at most
+`r`; with a clock for the side to move it is installed and strictly below that clock; with neither, none is
+installed.  (Client: truncation to milliseconds only shortens; engine: `C17.goBudget_within_clock`.) -/
+theorem client_go_within_given_time (p' : Pos) (rem : Option Int) (tc : TimeControl)
+    (hlong : ¬ TooShort rem tc) (hr : ∀ r, rem = some r → r ≤ 2^62)
+    (hw : 0 ≤ tc.white ∧ tc.white ≤ 2^62) (hb : 0 ≤ tc.black ∧ tc.black ≤ 2^62)
+    (hwi : 0 ≤ tc.winc ∧ tc.winc ≤ 2^62) (hbi : 0 ≤ tc.binc ∧ tc.binc ≤ 2^62) :
+    let dl := goBudget p' (goArgs rem tc)
+    let tm := if p'.toMove == .white then tc.white else tc.black
+    (∀ r, rem = some r → ∃ d, dl = some d ∧ d ≤ r ∧ (tm ≠ 0 → d < tm)) ∧
+    (tm ≠ 0 → ∃ d, dl = some d ∧ d < tm) ∧
+    (rem = none → tm = 0 → dl = none) := by
+  intro dl tm
+  have hb0 : ∀ d : Int, 0 ≤ d → d ≤ 2^62 → 0 ≤ msTrunc d ∧ msTrunc d ≤ 2^62 ∧ msTrunc d ≤ d := by
+    intro d h0 h1; unfold msTrunc; omega
+  have hbig : ∀ d : Int, 1000000 ≤ d → 1000000 ≤ msTrunc d := by
+    intro d h0; unfold msTrunc; omega
+  have hshort : ¬ TooShort none tc := fun hx => hlong ((tooShort_split rem tc).2 (.inr hx))
+  unfold TooShort at hshort
+  simp only [reduceCtorEq, false_and, exists_false, false_or, not_or, not_and, Int.not_lt] at hshort
+  obtain ⟨s1, s2, s3, s4⟩ := hshort
+  have hrem : ∀ r, rem = some r → 1000000 ≤ r := by
+    intro r hr'
+    have : ¬ r < 1000000 := fun hlt => hlong (.inl ⟨r, hr', hlt⟩)
+    omega
+  have hmt : 0 ≤ (goArgs rem tc).movetime := by
+    unfold goArgs
+    cases rem with
+    | none => simp
+    | some r => simp only []; have := hbig r (hrem r rfl); omega
+  have key := fun b h => C17.goBudget_within_clock p' (goArgs rem tc) b hmt
+    ⟨(hb0 _ hw.1 hw.2).1, (hb0 _ hw.1 hw.2).2.1⟩ ⟨(hb0 _ hb.1 hb.2).1, (hb0 _ hb.1 hb.2).2.1⟩
+    ⟨(hb0 _ hwi.1 hwi.2).1, (hb0 _ hwi.1 hwi.2).2.1⟩ ⟨(hb0 _ hbi.1 hbi.2).1, (hb0 _ hbi.1 hbi.2).2.1⟩ h
+  -- the mover's clock as the engine sees it
+  have htm : (if p'.toMove == .white then (goArgs rem tc).white else (goArgs rem tc).black) = msTrunc tm := by
+    simp only [tm, goArgs]; split <;> rfl
+  have htm0 : 0 ≤ tm ∧ tm ≤ 2^62 := by simp only [tm]; split <;> assumption
+  have htmbig : tm ≠ 0 → 1000000 ≤ tm := by
+    simp only [tm]; split
+    · exact s1
+    · exact s2
+  have hsome : (0 < (goArgs rem tc).movetime ∨ tm ≠ 0) → ∃ d, dl = some d := by
+    intro h
+    simp only [dl, goBudget]
+    cases hc : (p'.toMove == Color.white)
+    · simp only [hc, Bool.false_eq_true, if_false] at htm ⊢
+      have : (goArgs rem tc).movetime > 0 ∨ (goArgs rem tc).black > 0 := by
+        rcases h with h | h
+        · exact .inl h
+        · right; rw [htm]; have := hbig tm (htmbig h); omega
+      rw [if_pos this]; exact ⟨_, rfl⟩
+    · simp only [hc, if_true] at htm ⊢
+      have : (goArgs rem tc).movetime > 0 ∨ (goArgs rem tc).white > 0 := by
+        rcases h with h | h
+        · exact .inl h
+        · right; rw [htm]; have := hbig tm (htmbig h); omega
+      rw [if_pos this]; exact ⟨_, rfl⟩
+  refine ⟨?_, ?_, ?_⟩
+  · intro r hr'
+    subst hr'
+    have hmv : (goArgs (some r) tc).movetime = msTrunc r := rfl
+    have hr1 := hrem r rfl
+    have hr2 := hb0 r (by omega) (hr r rfl)
+    have hr3 := hbig r hr1
+    obtain ⟨d, hd⟩ := hsome (.inl (by rw [hmv]; omega))
+    have k := key d hd
+    simp only [] at k
+    rw [htm] at k
+    refine ⟨d, hd, ?_, ?_⟩
+    · have := k.2 (by rw [hmv]; omega); rw [hmv] at this; omega
+    · intro h0
+      have h1 := hbig tm (htmbig h0)
+      have := k.1 (by omega)
+      have := (hb0 tm htm0.1 htm0.2).2.2
+      omega
+  · intro h0
+    obtain ⟨d, hd⟩ := hsome (.inr h0)
+    have k := key d hd
+    simp only [] at k
+    rw [htm] at k
+    have h1 := hbig tm (htmbig h0)
+    have := k.1 (by omega)
+    have := (hb0 tm htm0.1 htm0.2).2.2
+    exact ⟨d, hd, by omega⟩
+  · intro hn h0
+    subst hn
+    simp only [dl, goBudget]
+    cases hc : (p'.toMove == Color.white)
+    · simp only [hc, Bool.false_eq_true, if_false] at htm ⊢
+      have : ¬ ((goArgs none tc).movetime > 0 ∨ (goArgs none tc).black > 0) := by
+        rw [htm, h0]; simp [goArgs, msTrunc]
+      rw [if_neg this]
+    · simp only [hc, if_true] at htm ⊢
+      have : ¬ ((goArgs none tc).movetime > 0 ∨ (goArgs none tc).white > 0) := by
+        rw [htm, h0]; simp [goArgs, msTrunc]
+      rw [if_neg this]
+
+example : goBudget (TPS.startPos 3 0) (goArgs (some 1500000000) { white := 60000700000, black := 1500000, winc := 2000000 })
+    = some 1500000000 := by decide +kernel
+example : goBudget (TPS.startPos 3 1) (goArgs none { white := 60000700000, black := 1500000, winc := 2000000 })
+    = some 0 := by decide +kernel
+
+/-! ## the client against this engine never fails an index -/
+
+/-- **The engine never writes an empty line**: whatever the command and the engine state, every line `Run`
+writes for it has a first word (`id`, `teiok`, `readyok`, `info`, `bestmove`).  `sendCommand` indexes
+`words[0]` of each line it reads and would panic on a line without words — an engine that is not ours can make
+it do so (correspondence op `teiscr`), this one cannot: -/
+theorem server_never_writes_empty_line (env : Env) (k : Nat) (st : Engine) (words : List String) :
+    ∀ l ∈ (recOf (step env k st words)).out, fields l.toList ≠ [] :=
+  step_linesOK env k st words
+
+/-- … so `sendCommand` against it never panics, for any command, any expected word and any state of the
+connection whose unread lines came from this engine; and the lines it leaves unread are again such lines. -/
+theorem client_send_never_panics (env : Env) (c : Conn EngSt) (cmd expect : String)
+    (h : ∀ l ∈ c.unread, fields l.toList ≠ []) :
+    (∀ s, (sendCommand (serverPeer env) c cmd expect).2 ≠ .error (.panic s)) ∧
+    (∀ l ∈ (sendCommand (serverPeer env) c cmd expect).1.unread, fields l.toList ≠ []) :=
+  sendCommand_no_panic env c cmd expect h
+
+/-- the index does fail on a line without words: a scripted engine that answers `go` with an empty line -/
+example : (readUntil "bestmove" ["", "bestmove a1"]).1 = some (.error (.panic "sendCommand: words[0] of an empty line")) := by
+  rfl
 
 /-- `NewGame(size)` on a fresh connection makes it ready -/
 theorem newGame_ready (env : Env) (size : Nat) (h3 : 3 ≤ size) (h8 : size ≤ 8) :
